@@ -85,7 +85,7 @@ fn sstr(rep: &mut Report, seed: u64) {
     rep.evaluations += 1;
     rep.add("miri.sstr.threads", 3);
     rep.add("miri.sstr.unique_ids", all.len() as u64);
-    let set: HashSet<UniqueId> = all.iter().copied().collect();
+    let set: HashSet<(u32, u32, i64)> = all.iter().map(|u| (u.index(), u.time(), u.random())).collect();
     if set.len() != all.len() {
         rep.violation("C12:now-repeat", "UniqueId::now repeated a value under Miri", json!({"cmd": "miri", "what": "sstr", "seed": seed}), J::Null);
     }
